@@ -346,6 +346,11 @@ class Effects:
         walk(j['blocks'])
         return self._analyse(Body(j), seed)
 
+    def direct_all(self, func):
+        """Screen paths written by func's own statements (not through callees)"""
+        d = self.direct.get(func, {})
+        return set().union(*d.values()) if d else set()
+
     # -----------------------------------------------------------------
     def block_writes(self, func, blocks):
         """Screen paths possibly written by the given blocks of func (transitively)"""
